@@ -1,5 +1,5 @@
 (* executor ops for C06 / C14 (PMT, PSI accessors) and the Coq serialisers used by the generators *)
-From Gots Require Import Base.Prelude Exec.ExecBase Model.Psi Model.Pmt Spec.PmtSpec.
+From Gots Require Import Base.Prelude Exec.ExecBase Model.Psi Model.Pmt Model.StreamType Spec.PmtSpec.
 Import Pmt.
 
 (* ---- observations ---- *)
@@ -107,6 +107,18 @@ Definition ops : list op := [
        | Some r, Some q =>
          vres (fun p => let p' := remove_elementary_streams p r in
                         VL [vpmt p'; VL (map (fun x => vbool (pid_exists p' x)) q)]) (new_pmt b)
+       | _, _ => vbad end
+     | _ => vbad end);
+  (* query, remove, query again on ONE PMT object: the PMT-level lags-EBP query must follow the stream list
+     through RemoveElementaryStreams (no state survives the removal); observation: [before; after; pid_exists after] *)
+  ("pmt.lagshist", fun a => match a with
+     | [VB b; VL rm; VL qs] =>
+       match ns_of rm, ns_of qs with
+       | Some r, Some q =>
+         vres (fun p => let p' := remove_elementary_streams p r in
+                        let lags (x : pmt) (pid : N) := StreamType.pmt_lags_by_pid (map (fun e => (epid e, stype e)) (streams x)) (Z.of_N pid) in
+                        VL [VL (map (fun x => vbool (lags p x)) q); VL (map (fun x => vbool (lags p' x)) q);
+                            VL (map (fun x => vbool (pid_exists p' x)) q); VL (map (fun x => vbool (lags p' x)) q)]) (new_pmt b)
        | _, _ => vbad end
      | _ => vbad end);
   ("pmt.computecrc", fun a => match a with [VB b] => VB (crc_model b) | _ => vbad end);
